@@ -189,11 +189,29 @@ Definition dec_plugin (d : dspec) : plugin :=
   | DRewrite en l => rewrite_plugin l (fun s _ => tl s) en (fun s _ => hd [] s)
   end.
 
+(* segments: the stream is the concatenation; message j of a segment (n, (e0, en), (a0, an), (c0, cn), reversed)
+   has ecu e0 + j' mod en, apid a0 + (j' / en) mod an, ctid c0 + (j' / (en * an)) mod cn with j' = j or n-1-j:
+   describes populations beyond the capacity at every table level, mixtures (1005 ctids under one apid, 3 under
+   another) and arrival orders without a literal message list *)
+Definition seg := (N * (N * N) * (N * N) * (N * N) * bool)%type.
+Definition seg_len (s : seg) : N := let '(n, _, _, _, _) := s in n.
+Definition seg_msg (start : N) (s : seg) (j : N) : msg :=
+  let '(n, (e0, en), (a0, an), (c0, cn), rv) := s in
+  let j' := if rv then n - 1 - j else j in
+  M (start + j) (1000000 * (start + j)) (e0 + j' mod en) (start + j) 49 0 0
+    (Some (65, 1, a0 + (j' / en) mod an, c0 + (j' / (en * an)) mod cn)) [] None 0.
+Fixpoint segs_stream (start : N) (l : list seg) : list msg :=
+  match l with
+  | [] => []
+  | s :: r => map (fun i => seg_msg start s (N.of_nat i)) (seq 0 (N.to_nat (seg_len s))) ++ segs_stream (start + seg_len s) r
+  end.
+
 (* ---------------------------------------------------------------- cases *)
 Inductive case_C19 :=
 | CLoop (scripts : list (N * list action)) (cap : option N) (ms : list msg)
 | CAnon (ms : list msg)
 | CAnonPop (necu napid nctid n : N)
+| CAnonSeg (segs : list seg)
 | CFrame (allow_ts : bool) (ins : list (msg * bool))
 | CDec (chain : list dspec) (ms : list msg)
 | CEquiv (orig anon : list lc_spec).
@@ -226,6 +244,7 @@ Definition run_C19 (c : case_C19) : otree :=
       o_loop (run_cap (match cap with Some c => N.to_nat c | None => length ms end) ps ms)
   | CAnon ms => o_anon (anon_run true anon_init ms)
   | CAnonPop necu napid nctid n => o_anon_ids (anon_run true anon_init (pop_stream necu napid nctid n))
+  | CAnonSeg segs => o_anon_ids (anon_run true anon_init (segs_stream 0 segs))
   | CFrame _ _ => T []
   | CDec chain ms => T [L 0; T (map o_msg (snd (process (map dec_plugin chain) ms)))]
   | CEquiv a b => T [o_detect true a; o_detect true b]
